@@ -784,3 +784,116 @@ def check_C14(tier):
         rep.notes["encoder_side"] = "not built yet"
     rep.exhaustive = True
     return rep.finish()
+
+
+# --------------------------------------------------------------------------
+# C17 - attribution is observation-only and truthful about tokens
+# --------------------------------------------------------------------------
+
+def attr_json(maps):
+    out = []
+    for m in maps:
+        att = m.attribution
+        out.append({"idx": int(m.index), "tok": m.token, "has": att is not None,
+                    "att": [{"i": int(a.index), "sym": a.token} for a in (att or [])]})
+    return out
+
+
+def record_decoder_attr(inputs, table, compat=False):
+    de.set_table(table)
+    recs = []
+    plain_diff = []
+    try:
+        for toks in inputs:
+            s = "".join(toks)
+            k0, v0 = de.call_decoder(s, compat, False)
+            k1, v1 = de.call_decoder(s, compat, True)
+            if k1 == "ok":
+                smi, maps = v1
+                rec = {"inp": list(toks), "kind": "ok", "out": smi, "attr": attr_json(maps)}
+            else:
+                smi = ""
+                rec = {"inp": list(toks), "kind": k1, "out": ""}
+            if (k0, v0) != (k1, smi):
+                plain_diff.append((toks, (k0, v0), (k1, smi)))
+            recs.append(rec)
+    finally:
+        de.set_table("default")
+    return recs, plain_diff
+
+
+def check_C17(tier):
+    rep = Report("C17", tier)
+    quick = tier == "quick"
+    rep.notes["rule"] = ("the decoder machine carries, per atom, the creating symbol and the enclosing branch symbols "
+                         "(global symbol positions ignoring [nop] and '.') and, per written atom token, its end index in "
+                         "the output; every enumerated / sampled call with attribute=True is recorded with its "
+                         "attribution list and TLC evaluates the clauses of the property on it; the string must equal "
+                         "the attribute=False result; encoder: j-th atom symbol attributed to j-th atom token; "
+                         "non-trivial = at least 2 symbols")
+    n = 4 if quick else 5
+    attr_alpha = {
+        "frag": [".", "[C]", "[=O]", "[N]", "[Ring1]", "[Ring2]", "[Branch1]", "[=Branch1]", "[F]", "[nop]", "[P]"],
+        "nest": ["[C]", "[=C]", "[N]", "[Branch1]", "[=Branch2]", "[Ring1]", "[O]", "[Branch1]", "[S]", ".", "[CH4]"],
+    }
+    for nm, alpha in attr_alpha.items():
+        alpha = sorted(set(alpha))
+        results, vectors = de.run_decoder_tlc("attr_" + nm, alpha, "default", n, emit=True, fastjit=quick)
+        add_results(rep, "attr_" + nm, results, alphabet=alpha, max_symbols=n, vectors=len(vectors))
+        inputs = [v["inp"] for v in vectors]
+        recs, diff = record_decoder_attr(inputs, "default")
+        for toks, a, b in diff:
+            rep.violation("attribute=True changes the translation of %r: %r vs %r" % ("".join(toks), a, b), {"tokens": toks})
+        for r_ in recs:
+            rep.case((nm, tuple(r_["inp"])), nontrivial=len(r_["inp"]) >= 2)
+        for r_ in recs[:: max(1, len(recs) // 2)][:2]:
+            rep.sample({"input": "".join(r_["inp"]), "output": r_["out"], "attribution": r_.get("attr", [])[:4]})
+        trace_validate(rep, "C17_" + nm, recs, "default")
+    rng = random.Random(seed() * 17 + 1)
+    for compat in (False, True):
+        inputs = [gens.alive_selfies(rng, rng.randint(3, 80 if quick else 300), p_dot=0.03, p_nop=0.05)
+                  for _ in range(150 if quick else 1500)]
+        inputs += [gens.many_closed_rings(14), gens.many_open_rings(12) + ["."] + gens.many_closed_rings(3)]
+        if compat:
+            inputs = [t + ["[Branch1_2]", "[C]", "[C@@Hexpl]", ".", "[N+expl]"] for t in inputs[:60]]
+        recs, diff = record_decoder_attr(inputs, "default", compat)
+        for toks, a, b in diff:
+            rep.violation("attribute=True changes the translation of %r" % "".join(toks)[:200], {"tokens": toks})
+        for r_ in recs:
+            rep.case(("long", compat, tuple(r_["inp"])), nontrivial=True)
+        trace_validate(rep, "C17_long_%s" % compat, recs, "default", compat)
+    # encoder side
+    import checks_enc
+    import gens_smiles as gs
+    corp = gs.corpus(rng, 12 if quick else 200, 2)
+    smis = sorted(set(s for _, s in corp))
+    sf = de.selfies_mod()
+    tab = checks_enc.relaxed_table()
+    recs = de.record_roundtrip(smis, tab, True)
+    sf.set_semantic_constraints(dict(tab))
+    try:
+        for r_ in recs:
+            if r_["kind"] == "ok":
+                try:
+                    sel, maps = sf.encoder(r_["smi"], strict=True, attribute=True)
+                except Exception as e:
+                    rep.violation("encoder(%r, attribute=True) raised %s although attribute=False succeeded" % (
+                        r_["smi"], type(e).__name__), {"smiles": r_["smi"]})
+                    continue
+                if sel != r_["sel"]:
+                    rep.violation("attribute=True changes the encoding of %r" % r_["smi"], {"smiles": r_["smi"]})
+                r_["eattr"] = attr_json(maps)
+    finally:
+        sf.set_semantic_constraints("default")
+    results, events = de.validate_roundtrip_trace("C17_enc", recs, tab)
+    for r in results:
+        rep.states += r.distinct
+        rep.transitions += r.generated
+    rep.traces += len(recs)
+    for e in events:
+        if e.get("ev") == "MISMATCH" and e["prop"] == "C17":
+            rec = recs[e["tid"]]
+            rep.violation("encoder(%r, attribute=True): %s" % (rec["smi"], e["clause"]), {"smiles": rec["smi"], "attr": rec.get("eattr")})
+    rep.configs.append({"config": "encoder attribution", "records": len(recs)})
+    rep.exhaustive = True
+    return rep.finish()
